@@ -220,3 +220,17 @@ PROPS["C15"] = {
                "(size, prot, flags, fd, offset) and reports the request back; real descriptors",
     "assumptions": ["cffi.rs models of mmap/munmap/lseek64/close/sysconf/__errno_location are the environment contract; File::from_raw_fd(7) stands for an arbitrary open file"],
 }
+
+PROPS["C13"] = {
+    "groups": [
+        {"crate": "std", "quick": ["c13::"], "jobs": 8, "mem_gb": 12, "timeout_s": 1200, "stubbed": True},
+    ],
+    "bounds": "stream content and length 0..=10 (symbolic), two consecutive calls with buffer lengths b1 + b2 <= 10 (both sides of the 8-byte threshold), "
+              "cursor position unconstrained u64; adapters: &[u8] (read, read_exact), &mut [u8] (write, write_all), Cursor<&[u8]> (read, read_exact), "
+              "Cursor<&mut [u8]> (write, write_all = default loop), Vec<u8> (write; concrete shapes: initial length 0/1/2, writes of 0/3/8/9 + 0/1/4 bytes), "
+              "File via read(2)/write(2) models (one call, any return value >= -1, errno EINTR/EIO/EAGAIN)",
+    "outside": "stream position after a FAILED exact call is not compared (only success/failure equivalence is required; newer std consumes the stream on EOF); "
+               "Vec::write_all_volatile (default loop over Vec::write_volatile: > 16 GB); TcpStream/UnixStream/OwnedFd/BorrowedFd/Stdout share the File code path "
+               "(read_volatile_raw_fd/write_volatile_raw_fd) and are not instantiated separately; real descriptors",
+    "assumptions": ["twin = the std::io::Read/Write impl of the std Kani compiles (nightly-2026-08-21)", "cffi.rs read/write/__errno_location models"],
+}
